@@ -22,8 +22,14 @@ func (m *MatrixStepPlanner) Process(ctx *shared.PlannerContext,
 	out := make(chan []shared.LogEntry)
 	go func() {
 		defer close(out)
-		// recover() only works when called directly by the deferred function
-		defer shared.TamePanic(out)
+		defer func() {
+			// recover() only works when called directly by the deferred function
+			if err := recover(); err != nil {
+				// nobody reads the upstream any more: let its producers finish
+				shared.Drain(_in)
+				shared.ReportPanic(err, out)
+			}
+		}()
 		var (
 			fp       uint64
 			nextTsNs int64
